@@ -184,6 +184,11 @@ def affine(e: ast.AST, var: str, env: dict) -> tuple[LP, LP]:
         return LP(), LP.sym(ast.unparse(e))
     if isinstance(e, ast.Call) and call_name(e) in ("round", "int", "float") and len(e.args) == 1:
         return affine(e.args[0], var, env)
+    if isinstance(e, ast.Call) and call_name(e) in ("min", "max") and len(e.args) == 2:
+        # a clamp against a constant is the identity inside the range (the nearest-value clause is not decided)
+        non_const = [a for a in e.args if not isinstance(a, ast.Constant)]
+        if len(non_const) == 1:
+            return affine(non_const[0], var, env)
     if isinstance(e, ast.BinOp):
         a1, b1 = affine(e.left, var, env)
         a2, b2 = affine(e.right, var, env)
@@ -214,8 +219,11 @@ def local_env(fn, var: str) -> dict:
     env: dict = {}
     for st in fn.node.body:
         if isinstance(st, ast.Assign) and len(st.targets) == 1 and isinstance(st.targets[0], ast.Name):
-            # treat a difference of configuration values as one symbol (delta = range_to - range_from)
-            env[st.targets[0].id] = (LP(), LP.sym(f"({ast.unparse(st.value)})"))
+            if any(isinstance(x, ast.Name) and (x.id == var or (x.id in env and env[x.id][0].t)) for x in ast.walk(st.value)):
+                env[st.targets[0].id] = affine(st.value, var, env)  # an intermediate of the value being converted
+            else:
+                # a combination of configuration values is one symbol (delta = range_to - range_from)
+                env[st.targets[0].id] = (LP(), LP.sym(f"({ast.unparse(st.value)})"))
     return env
 
 
